@@ -32,6 +32,14 @@ from dataclasses import dataclass
 from typing import Optional, Dict, List, Any
 
 
+def decode_bool(value: Any) -> Optional[bool]:
+  """Decodes a JSON boolean configuration value (null is passed through)"""
+  if value is None or isinstance(value, bool):
+    return value
+
+  raise ValueError(f"Invalid boolean value '{value}'. Expect: true or false.")
+
+
 class ModuleConfiguration:
   """Base class for module configurations"""
 
@@ -87,7 +95,7 @@ class ModuleConfiguration:
 class GeneralConfiguration(ModuleConfiguration):
   """TT general configuration"""
   log_level: Optional[str] = "INFO"
-  progress_bar: Optional[bool] = True
+  progress_bar: Optional[bool] = dataclasses.field(default=True, metadata={"decoder": decode_bool})
   document_lang: Optional[str] = None
 
   @classmethod
